@@ -150,11 +150,13 @@ def run_cases(lines, jobs=1):
         if jobs <= 1 or len(lines) < 200:
             res, _ = _pipe(lines, workdir, 0)
         else:
-            n = (len(lines) + jobs - 1) // jobs
-            chunks = [lines[i:i + n] for i in range(0, len(lines), n)]
+            # round-robin distribution (expensive lines are often adjacent), results re-assembled in order
+            chunks = [lines[k::jobs] for k in range(jobs)]
             with ThreadPoolExecutor(max_workers=jobs) as ex:
-                parts = list(ex.map(lambda a: _pipe(a[1], workdir, a[0])[0], enumerate(chunks)))
-            res = [x for p in parts for x in p]
+                parts = list(ex.map(lambda a: _pipe(a[1], workdir, a[0])[0] if a[1] else [], enumerate(chunks)))
+            res = [None] * len(lines)
+            for k, part in enumerate(parts):
+                res[k::jobs] = part
     finally:
         shutil.rmtree(workdir, ignore_errors=True)
     return [Case(i, v) for i, v in res]
